@@ -55,6 +55,8 @@ type World struct {
 	Trace   []string
 	Verbose bool
 	NoSkew  bool
+	// CIDLenHint, if set, tells wire parsers which CID length to assume for datagrams emitted by an address.
+	CIDLenHint func(src Addr) int
 	closers []func()
 }
 
